@@ -22,6 +22,8 @@ R08.10 section sequences: wasmModuleRead evaluated on concrete files with every 
        DataCount between Element and Code, customs anywhere, sparse subsets, empty) - accepted, readers called in file order
 R08.11 present-but-empty equals absent: every combination of omitted / zero-entry sections is accepted by the real section readers
        (concrete files; calloc(0, n) modelled as on the analysed target: a unique non-NULL pointer)
+R08.12 padded LEB128: every instruction with immediates is translated from bytes (real decoders, concrete code buffer) in its minimal
+       and in a padded encoding, in live and dead code: same emitted text, stack effect, result, bytes consumed, open labels
 R08.9  reader primitives accept input that ends exactly at the end of the file (shared with C10 R10.11): a name, number or byte
        vector in the last section must decode like anywhere else
 R08.6  absent = empty: the module record comes from a zero-initialising allocation, and loops over module arrays are
@@ -705,8 +707,8 @@ def check_immediate_decoders(chk):
         except pe.PEError as e:
             if not isinstance(e, emit.ScriptMismatch):
                 raise AnalysisBroken('R08.7 %s: %s' % (label, e))
-            chk.fail('R08.7', label, '%s: %s - the translator reads this immediate with a decoder of another type, so only some of the valid '
-                     'encodings of the same instruction are accepted or they are decoded differently' % (label, e), site)
+            # the translator reads this immediate with a decoder of another type: decided on bytes (minimal vs padded encodings)
+            emit.decide_mismatch(chk, 'R08.7', label, e, site, '%s: ' % label)
             return
         good = [t for t in tpls if t.ok]
         if not good:
@@ -1063,6 +1065,18 @@ def run(chk):
     n9 = c10.check_exact_end(chk, 'R08.9')
     n10 = check_section_sequences(chk, rtu)
     n11 = check_empty_vectors(chk, rtu)
+    # R08.12: non-minimal LEB128 encodings are valid encodings - every instruction with immediates, translated with the real decoders
+    # from its minimal and from a padded byte encoding (live and dead code), gives the same text, stack effect, result and consumes
+    # the same instructions
+    from .. import bytedecode
+    bad, ncmp, nok = bytedecode.differential(chk.tier)
+    chk.require(nok >= 200, 'byte-level differential: only %d of %d instruction encodings translate' % (nok, ncmp))
+    for b_ in bad[:8]:
+        chk.fail('R08.12', 'padded-leb:' + b_.split(':')[0], b_, 'immediate-decoders:bytes')
+    if not bad:
+        chk.ok('R08.12', 'padded-leb', '%d instruction encodings (live and dead code): minimal and padded LEB128 encodings of the same immediates '
+               'translate identically' % ncmp)
+    chk.floor('R08.12', 1)
     chk.floor('R08.11', 15)
     chk.floor('R08.10', 10)
     chk.extra['sites'] = dict(leb_call_sites=n1, decoder_paths=n2, custom_section_writes=n4, container_loops=n6, instructions_decoded=n7)
